@@ -254,24 +254,37 @@ Inductive hk := HS (s : str) | HZ (z : Z) | HF (repr : str) | HNone | HTup (l : 
 Definition lit_hk (l : lit) : hk :=
   match l with LStr s => HS s | LInt z => HZ z | LBool b => HZ (if b then 1 else 0) | LFloat r => HF r | LNone => HNone end.
 
+Definition hk_str_eqb (a b : hk) : bool := match a, b with HS x, HS y => str_eqb x y | _, _ => false end.
+
+(* a frozenset keeps one representative of each class of equal elements: first occurrences under the given equality *)
+Fixpoint nodup_by {T} (eqb : T -> T -> bool) (l : list T) : list T :=
+  match l with
+  | [] => []
+  | x :: r => x :: filter (fun y => negb (eqb x y)) (nodup_by eqb r)
+  end.
+
+Definition keyed_nodup {T} (eqb : T -> T -> bool) (l : list (T * hk)) : list hk :=
+  map snd (nodup_by (fun a b => eqb (fst a) (fst b)) l).
+
 Fixpoint hkey (t : ty) : hk :=
   match t with
   | TUnknown => HTup []
   | TNamed n q => HTup [HS n; HS q]
-  | TNamedSeq n q ts => HFro (HS n :: HS q :: map hkey ts)
-  | TEnum vs => HTup [HFro (map HS vs)]
+  | TNamedSeq n q ts => HFro (nodup_by hk_str_eqb [HS n; HS q] ++ keyed_nodup py_eq (map (fun x => (x, hkey x)) ts))
+  | TEnum vs => HTup [HFro (map HS (nodup_by str_eqb vs))]
   | TBoundary b mn mx i1 i2 =>
     HTup [HS b; lit_hk mn; lit_hk mx; lit_hk (LBool i1);
           if lit_eqb mx (LStr (K"Infinity")) then HNone else lit_hk (LBool i2)]
-  | TUnion ts | TList ts | TSet ts | TTuple ts => HFro (map hkey ts)
-  | TDict k v => HFro [hkey k; hkey v]
-  | TCallable ps r => HFro (map hkey ps ++ [hkey r])
-  | TLiteral ls => HFro (map lit_hk ls)
+  | TUnion ts | TList ts | TSet ts | TTuple ts => HFro (keyed_nodup py_eq (map (fun x => (x, hkey x)) ts))
+  | TDict k v => HFro (keyed_nodup py_eq [(k, hkey k); (v, hkey v)])
+  | TCallable ps r => HFro (keyed_nodup py_eq (map (fun x => (x, hkey x)) ps ++ [(r, hkey r)]))
+  | TLiteral ls => HFro (map lit_hk (nodup_by lit_eqb ls))
   | TFinal t' => HFro [hkey t']
   | TTypeVar n ub => HFro [HS n; match ub with Some u => hkey u | None => HNone end]
   end.
 
-(* equality of hash keys: tuples positionally, frozensets as sets.  Equal keys => equal Python hashes. *)
+(* equality of hash keys: tuples positionally, frozensets as multisets of the keys of their (pairwise unequal) elements.
+   Equal keys => equal Python hashes: the hash of a frozenset is a commutative combination of its elements' hashes. *)
 Fixpoint hk_eqb (a b : hk) {struct a} : bool :=
   match a, b with
   | HS x, HS y => str_eqb x y
@@ -286,12 +299,7 @@ Fixpoint hk_eqb (a b : hk) {struct a} : bool :=
        | _, _ => false
        end) l l'
   | HFro l, HFro l' =>
-    forallb (fun x => existsb (hk_eqb x) l') l &&
-    (fix back (ys : list hk) : bool :=
-       match ys with
-       | [] => true
-       | y :: r => (fix ex (xs : list hk) : bool :=
-                      match xs with [] => false | x :: xr => hk_eqb x y || ex xr end) l && back r
-       end) l'
+    Nat.eqb (List.length l) (List.length l') &&
+    forallb (fun x => Nat.eqb (count_pred (hk_eqb x) l) (count_pred (hk_eqb x) l')) l
   | _, _ => false
   end.
